@@ -102,9 +102,9 @@ prop("C16", opts={"memprop": "C16", "afprop": "C16"},
                       "rule_refused", "get_rule_refused", "get_with_rule", "repeated_option_key", "add_then_fetch", "notify_add", "get_selected>=2"])
 
 prop("C13", also=["C05/connection-not-released", "C07/.*"],
-     mix=[("c13", "default", 3), ("c13", "small", 1.5), ("c13", "batch1", 0.5)],
-     quick_mix=[("c13", "default", 2), ("c13", "small", 1)],
-     quick_s=25, thorough_s=600, opts={"memprop": "C13"},
+     mix=[("c13", "default", 3), ("c13", "small", 1.5), ("c13", "batch1", 0.5), ("c13+af", "default", 1.5)],
+     quick_mix=[("c13", "default", 2), ("c13", "small", 1), ("c13+af", "default", 1)],
+     quick_s=25, thorough_s=600, opts={"memprop": "C13", "afprop": "C13"},
      rule="seeded HTTP exchanges that are clearly not a valid upgrade (wrong path, method or version, malformed request line or header, over-long line, missing or wrong Upgrade/Connection/key/version headers per RFC 6455 4.2.1, "
           "request corrupted at a drawn byte, request truncated at a drawn byte and then closed by FIN, reset or hang-up) under random segmentation, read caps and batching, next to healthy peers; oracle: never 101, an error status or a close, "
           "peer count never above the number of open connections, heap/arena/descriptors back at baseline once the connections are gone, canary served, clean SIGTERM. non-trivial: an invalid request reached the daemon; distinct by trace hash",
@@ -178,8 +178,8 @@ prop("C15", kind="c15", level="fault_enumeration", corpus=48,
      nontrivial=[])
 
 prop("C20", kind="c20", level="fault_enumeration",
-     mix=[("c20", "default", 1), ("c20", "batch1", 1)],
-     quick_mix=[("c20", "default", 1)],
+     mix=[("c20", "default", 1), ("c20", "batch1", 1), ("c20", "big", 0.7)],
+     quick_mix=[("c20", "default", 1), ("c20", "big", 0.3)],
      quick_s=40, thorough_s=600, quick_scenarios=500, thorough_scenarios=6000,
      rule="seeded scenarios: credential files with plain, admin, read-only and password-less users (DES, MD5, SHA-256/512 hashes), 1-3 connections on raw/unix/WebSocket transports issuing authenticate (right, wrong, unknown user) and passwd "
           "(own account, other account, unknown, read-only) requests, each change followed by authentications with the old and the new password; the reference model decides every response (who may change what; new password works, old does not). "
